@@ -670,7 +670,7 @@ func runC05(c *Ctx, r *Report) {
 			continue
 		}
 		alias := map[types.Object]*types.Var{}
-		walkNoLit(fn.Body, func(n ast.Node) bool {
+		ast.Inspect(fn.Body, func(n ast.Node) bool { // also inside closures (a result variable set under a lock wrapper)
 			if as, ok := n.(*ast.AssignStmt); ok && len(as.Lhs) == len(as.Rhs) {
 				for i, l := range as.Lhs {
 					if id, ok := l.(*ast.Ident); ok {
@@ -703,17 +703,13 @@ func runC05(c *Ctx, r *Report) {
 			}
 			return true
 		})
-		// positive instances: methods that return something derived from Entries via Copy
-		walkNoLit(fn.Body, func(n ast.Node) bool {
-			if ret, ok := n.(*ast.ReturnStmt); ok {
-				for _, res := range ret.Results {
-					if call, ok := ast.Unparen(res).(*ast.CallExpr); ok {
-						if se, ok := ast.Unparen(call.Fun).(*ast.SelectorExpr); ok && se.Sel.Name == "Copy" {
-							if v, _ := p.FieldSel(fn, se.X); v == entriesF || v == nextF {
-								nAcc++
-								r.Hold("R-C05.3", r.Key("R-C05.3", fn, "return-copy", v.Name()), ret.Pos(), true, "accessor returns a copy of "+v.Name())
-							}
-						}
+		// positive instances: exported methods that hand out something derived from Entries via Copy
+		ast.Inspect(fn.Body, func(n ast.Node) bool {
+			if call, ok := n.(*ast.CallExpr); ok {
+				if se, ok := ast.Unparen(call.Fun).(*ast.SelectorExpr); ok && se.Sel.Name == "Copy" && len(call.Args) == 0 {
+					if v, _ := p.FieldSel(fn, se.X); v == entriesF || v == nextF {
+						nAcc++
+						r.Hold("R-C05.3", r.Key("R-C05.3", fn, "return-copy", v.Name()), call.Pos(), true, "accessor hands out a copy of "+v.Name())
 					}
 				}
 			}
